@@ -167,6 +167,14 @@ func Layout(rt *rapid.T, o LayoutOpts) *Tree {
 				g.t.Existing[d] = name
 				continue
 			}
+			if strings.HasPrefix(c.OutFile, "@cwd/") && c.OutPkg == "" && g.coin("existing-at-cwd-output") {
+				// a package of another name at a location that depends on the working directory:
+				// its name is only found if the location is resolved the same way everywhere
+				name := fmt.Sprintf("oldname%d", g.draw(3, "oldname"))
+				g.t.Files[d+"/existing.go"] = "package " + name + "\n\nvar Existing = 1\n"
+				g.t.Existing[d] = name
+				continue
+			}
 			switch g.draw(4, "existing-pkg") {
 			case 0:
 				name := fmt.Sprintf("oldname%d", g.draw(3, "oldname"))
